@@ -149,15 +149,30 @@ package markup
 //@ functype markup.markerProcessor(f, marker) (text string, err error)
 //@   requires marker != nil
 //
+// Properties of a marker: propIdx is the index of the first property with a name (from index i on), or -1.
+//@ opaque pure func propIdx(ps seq[property], name string, i int) int {
+//@     return (i < 0 || i >= len(ps)) ? 0 - 1 : (ps[i].name == name ? i : propIdx(ps, name, i + 1)) }
+//@ pure func (am *attributeMarker) has(name string) bool { return propIdx(seq(am.properties), name, 0) >= 0 }
+//@ pure func (am *attributeMarker) prop(name string) Value { return am.properties[propIdx(seq(am.properties), name, 0)].value }
+//
 //@ func (am *attributeMarker) GetProperty(name string) (v Value, ok bool)
 //@   requires am != nil
-//@   ensures "first-with-that-name": ok ==> (exists i int :: 0 <= i && i < len(am.properties) && am.properties[i].name == name && v == am.properties[i].value)
+//@   ensures "first-with-that-name": ok == am.has(name) && (ok ==> v == am.prop(name))
+//@   loop 0: invariant 0 <= rangeindex + 1 && rangeindex + 1 <= len(am.properties) &&
+//@           propIdx(seq(am.properties), name, rangeindex + 1) == propIdx(seq(am.properties), name, 0)
 //
 //@ func toPropertyMap(properties []property) (res map[string]Value)
 //@   ensures res != nil && fresh(res)
 //
+// display form of a property value (the float form is left to fmt / strconv)
+//@ extern func floatText(f float64) string
+//@ pure func vstr(v Value) string {
+//@     return v.ValueType == ValueTypeInteger ? itoa(v.IntegerValue) : v.ValueType == ValueTypeFloat ? floatText(v.FloatValue)
+//@          : v.ValueType == ValueTypeString ? v.StringValue : v.ValueType == ValueTypeBool ? (v.BoolValue ? "True" : "False") : "" }
 //@ func (v *Value) toString() (res string)
 //@   requires v != nil
+//@   ensures "display": v.ValueType != ValueTypeFloat ==> res == vstr(*v)
+//@   ensures "assumed:float-display": v.ValueType == ValueTypeFloat ==> res == vstr(*v)
 //
 //@ func getProcessor(name string) (p markerProcessor)
 //@   ensures "replacement-markers": (p != nil) == (name == "nomarkup" || name == "select" || name == "plural" || name == "ordinal")
@@ -172,19 +187,39 @@ package markup
 //@ func (parseResult *ParseResult) Attribute(name string) (a Attribute, ok bool)
 //@   requires parseResult != nil
 //
+// Replacement markers (C13): the text each definition prescribes, for every value and property list.
+// placeholders: every % of the replacement stands for the value, \<value> afterwards gives a literal %.
+//@ pure func placeholders(replacement string, value string) string {
+//@     return strCount(replacement, "%") == 0 ? replacement : replaceAll(replaceAll(replacement, "%", value), "\\" + value, "%") }
+//@ func replacePlaceholders(replacement string, value string) (res string)
+//@   ensures "placeholders": res == placeholders(replacement, value)
+//
 //@ func processNoMarkup(marker *attributeMarker) (text string, err error)
 //@   requires marker != nil
+//@   ensures "raw-contents": err == nil && text == (marker.has("contents") ? vstr(marker.prop("contents")) : "")
+//
 //@ func processSelect(marker *attributeMarker) (text string, err error)
 //@   requires marker != nil
+//@   ensures "select-table": (err == nil) == (marker.has("value") && marker.has(vstr(marker.prop("value")))) &&
+//@           (err == nil ==> text == placeholders(vstr(marker.prop(vstr(marker.prop("value")))), vstr(marker.prop("value"))))
+//
+// English plural: "one" exactly for the integer 1, "other" for every other number
+//@ pure func pluralCase(v Value) string { return (v.ValueType == ValueTypeInteger && v.IntegerValue == 1) ? "one" : "other" }
 //@ func processPlural(marker *attributeMarker) (text string, err error)
 //@   requires marker != nil
+//@   ensures "plural-table": (err == nil) == (marker.has("value") &&
+//@               (marker.prop("value").ValueType == ValueTypeInteger || marker.prop("value").ValueType == ValueTypeFloat) &&
+//@               marker.has(pluralCase(marker.prop("value")))) &&
+//@           (err == nil ==> text == placeholders(vstr(marker.prop(pluralCase(marker.prop("value")))), vstr(marker.prop("value"))))
 //
 // the English ordinal rules of the property's reference: one iff n % 10 == 1 and n % 100 != 11, ...
 //@ pure func ordinalCase(n int) string {
 //@     return (n % 10 == 1 && n % 100 != 11) ? "one" : (n % 10 == 2 && n % 100 != 12) ? "two" : (n % 10 == 3 && n % 100 != 13) ? "few" : "other" }
 //@ func processOrdinal(marker *attributeMarker) (text string, err error)
 //@   requires marker != nil
-//@ func replacePlaceholders(replacement string, value string) (res string)
+//@   ensures "ordinal-table": (err == nil) == (marker.has("value") && marker.prop("value").ValueType == ValueTypeInteger &&
+//@               marker.has(ordinalCase(marker.prop("value").IntegerValue))) &&
+//@           (err == nil ==> text == placeholders(vstr(marker.prop(ordinalCase(marker.prop("value").IntegerValue))), vstr(marker.prop("value"))))
 //
 //@ func (parseResult *ParseResult) TextForAttribute(attribute Attribute) (res string)
 //@   requires parseResult != nil
